@@ -734,3 +734,39 @@ def drv_nn_layer(doc, args, inst):
 
 
 DRIVERS.update({'nn_layer': drv_nn_layer})
+
+
+def drv_rank_chop(doc, args, inst):
+    from torchtt._decomposition import rank_chop
+    n = max(1, min(8, int(inst.get('n', 3))))
+    try:
+        eps = float(inst.get('eps', 1.0))
+    except Exception:
+        eps = 1.0
+    s = []
+    for v in (inst.get('s') or [])[:n]:
+        try:
+            s.append(abs(float(v)))
+        except Exception:
+            s.append(1.0)
+    while len(s) < n:
+        s.append(s[-1] if s else 1.0)
+    msgs = []
+    cands = [(np.array(s, dtype=np.float64), eps)]
+    # the tie family around the model: equal singular values with the threshold exactly on a partial tail
+    for m in (2, 3, 4):
+        cands.append((np.ones(m), 1.0))
+        cands.append((np.array([2.0] + [1.0] * (m - 1)), 1.0))
+    for sv, e in cands:
+        R = int(rank_chop(sv.copy(), e))
+        tail = float((sv[R:] ** 2).sum())
+        if not (1 <= R <= len(sv)):
+            msgs.append('rank_chop(%s, %s) = %d outside [1, n]' % (sv.tolist(), e, R))
+        elif e > 0 and tail > e * e * (1 + 1e-12):
+            msgs.append('rank_chop(%s, %s) = %d discards energy %g > eps^2 = %g' % (sv.tolist(), e, R, tail, e * e))
+        if msgs:
+            break
+    return msgs
+
+
+DRIVERS.update({'rank_chop': drv_rank_chop})
